@@ -47,7 +47,7 @@ def run(tier="quick", seed=0, use_cache=True):
     oo = out["OO"]["stats"]
     res.floor("operator slots checked (OO)", oo["slots"], 20)
     res.floor("in-place alias guards (OO)", oo["inplace"], 4)
-    res.floor("mutations of self inside loops of the in-place operators (OO)", oo.get("inplace_loop_mutations", 0), 8)
+    res.floor("mutations of self inside loops of the in-place operators (OO)", oo.get("inplace_loop_mutations", 0), 6)
     res.count("INPLACE-MONOTONE", sum(r["stats"].get("inplace_loop_mutations", 0) for r in out.values()))
     res.floor("translation units", len(out), 22)
     res.count("OP-WIRING", sum(r["stats"]["slots"] for r in out.values()))
